@@ -47,14 +47,16 @@ class S:
 
 
 class GroupValue:
-    """stands for ExecutionGroupValue: data, errors, delivery_groups, path"""
+    """stands for ExecutionGroupValue: data, errors, delivery_groups, path (= where the data is rooted: the longest
+    path among the delivery groups the execution group belongs to)"""
 
     def __init__(self, task, groups):
         self.task = task
         self.data = {task: 1}
         self.errors = None
         self.delivery_groups = groups
-        self.path = []
+        paths = [g.path.as_list() if g.path is not None else [] for g in groups]
+        self.path = max(paths, key=len) if paths else []
 
 
 class ItemValue:
@@ -139,8 +141,16 @@ def replay(beh, with_publisher=True):
             for w in items:
                 item_groups.update(w["groups"])
                 item_streams.update(w["streams"])
+    # group paths: groups produced by a stream item sit at that item; g2 (and a g3 nested in g2) sit one level
+    # deeper than the other groups, so that a task shared by g1 and g2 exercises the publisher's choice of the
+    # best (longest-path, still pending) id and its sub path
     for g in groups.values():
-        g.path = P(["s1", 0]) if g.name in item_groups else None
+        if g.name in item_groups:
+            g.path = P(["s1", 0])
+        elif g.name == "g2" or (g.name == "g3" and g.parent is not None and g.parent.name == "g2"):
+            g.path = P(["o"])
+        else:
+            g.path = None
     for s in streams.values():
         s.path = P(["s1", 0, "sx"]) if s.name in item_streams else P([s.name])
 
@@ -229,6 +239,7 @@ def publisher_trace(cfg, wq, raw_batches, groups, streams, IncrementalPublisher)
     from .increq import enc_payload
     pub = IncrementalPublisher()
     init_data = {s.name: [] for s in streams.values() if s.path.as_list() == [s.name]}
+    init_data["o"] = {}
     pending = pub._to_pending_results(wq.initial_groups, wq.initial_streams)
     initial = {"data": init_data, "pending": [p.formatted for p in pending], "hasNext": True}
     payloads = [initial]
@@ -236,11 +247,16 @@ def publisher_trace(cfg, wq, raw_batches, groups, streams, IncrementalPublisher)
         payloads.append(pub._handle_batch(b).formatted)
     # synthetic reference: everything delivered
     ref = dict(init_data)
+    ref["o"] = {}
     for t in cfg["tgroups"]:
         gs = [groups[g] for g in cfg["tgroups"][t]]
-        if any(g.path is not None for g in gs):
-            continue
-        ref[t] = 1
+        paths = [g.path.as_list() if g.path is not None else [] for g in gs]
+        where = max(paths, key=len)
+        if where == []:
+            ref[t] = 1
+        elif where == ["o"]:
+            ref["o"][t] = 1
+        # tasks of groups produced by stream items are accounted for in the item below
     for s, st in streams.items():
         q = st.queue
         lst = []
@@ -262,4 +278,4 @@ def publisher_trace(cfg, wq, raw_batches, groups, streams, IncrementalPublisher)
     for s in streams:
         parents[s] = ""
     return {"initial": enc_payload(initial, True), "subsequent": [enc_payload(p) for p in payloads[1:]],
-            "parents": parents, "ref": wire.enc_value(ref), "refclean": not any_fail, "complete": ended}
+            "parents": parents, "ref": wire.enc_value(ref), "refclean": not any_fail, "complete": ended, "stalled": False}
